@@ -5,6 +5,13 @@ def register(prop, TB):
     tb = TB + [
         "protobuf: the model is for contiguous buffers (`Bytes`, `&[u8]`); `decode_varint` over chunked `Buf`s is compared with the contiguous result by the T1 oracle only",
         "protobuf error messages are not compared; the class `depth` is recognised by prost's fixed text \"recursion limit reached\"",
+        "emitted code: harness/pbrun/build.rs runs the real pilota_build::Builder::protobuf() over harness/pbcorpus/*.proto on every build; the request schemas are derived from the protobuf-parse descriptors by the protobuf spec, independently of pilota-build's lowering; values are built and read field by field through generated glue",
+        "hash-map iteration order: encodings of values with a map of two or more entries are compared by length and by decoding, not byte for byte",
     ]
-    prop("C05", lean_props=["C05", "PbTables"], trusted_base=tb)
-    prop("C10", lean_props=["C10", "PbTables"], trusted_base=tb)
+    bins = ["rt", "pbrun"]
+    prop("C05", lean_props=["C05", "PbTables"], trusted_base=tb, bins=bins,
+         streams=[{"name": "C05"}, {"name": "C05e", "bin": "pbrun"}])
+    prop("C10", lean_props=["C10", "PbTables"], trusted_base=tb, bins=bins,
+         streams=[{"name": "C10"}, {"name": "C10e", "bin": "pbrun"}])
+    prop("C18", lean_props=["C18", "PbTables"], trusted_base=tb, bins=bins,
+         streams=[{"name": "C18"}, {"name": "C18e", "bin": "pbrun"}])
